@@ -48,7 +48,8 @@ type c01Plan struct {
 	Jump     uint64        `json:"jump,omitempty"`
 	Redeploy bool          `json:"redeploy,omitempty"` // setup history: CREATE2 child, probed, self-destructed, redeployed at the same address with other code; the block under test probes it // height slots skipped by the block under test (miners applied in the setup count from apply height + 300)
 	Txs      []node.TxSpec `json:"txs"`
-	Alt      []node.TxSpec `json:"alt,omitempty"` // a DIFFERENT block of the same height (replicas with warm=3 execute it first)
+	CastStep int64         `json:"cast_step,omitempty"` // ms the proposer's clock advances at every reading while it casts (its 3 s budget can run out mid-block)
+	Alt      []node.TxSpec `json:"alt,omitempty"`       // a DIFFERENT block of the same height (replicas with warm=3 execute it first)
 	QN       uint64        `json:"qn"`
 	PV       int64         `json:"pv"`
 	Castor   int           `json:"castor"`
@@ -73,11 +74,11 @@ func (c01) Budget(tier string) runner.Budget {
 
 func (c01) Describe() runner.Description {
 	return runner.Description{
-		Rule:        "each plan: a fixed funded parent state (2 setup blocks: funding transfers, 3 contracts, 0-2 miners) plus one seeded test block of 1..25 transactions of every executor type (operator transfers with 1-4 JSON targets incl. the source itself, the same address in different letter case, duplicate keys, zero/fractional/>18-decimal/negative/huge/malformed amounts, amounts exhausting the balance part-way; miner apply/add-stake/refund/change-account valid and invalid; contract create/call (native type and the wrapped-Ethereum type 188 form, nonce in sequence / too low / too high) of programs that SSTORE, LOG, move value, REVERT, self-destruct, burn all gas; repeated and out-of-order nonces; add-stake to the genesis proposers; 15% proposer-heavy blocks). In 40% of the plans the block under test skips 300..420 height slots so that miners registered by the setup (optionally 3-5 proposers sharing ONE reward account) are counted in the reward step; half of the plans carry a competing block of the same height that moves proposer stakes. In 25% of the plans the setup history replaces the code at a fixed address (CREATE2 child probed by EXTCODESIZE, self-destructed, re-created with longer code) and the block under test probes it again. The block is executed first by the long-running incarnation that executed the whole setup history, then by R=4 (quick) / 8 (thorough) replica incarnations differing in seeded map-iteration order, wall clock (epoch, per-call drift), cold boot from the parent's disk image vs warm node with seeded first-touch reads or an executed-and-discarded block vs a fresh incarnation whose only history is the competing block of the same height; state root, evicted list, executed list and every receipt (status, result text, logs, gas, contract address) must be byte-identical. Then a proposer incarnation casts the block through the pool and a differently seeded incarnation must accept it. distinct_nontrivial = distinct (tx-kind multiset, outcome vector) pairs of blocks with >=2 transactions or a multi-target transfer.",
+		Rule:        "each plan: a fixed funded parent state (2 setup blocks: funding transfers, 3 contracts, 0-2 miners) plus one seeded test block of 1..25 transactions of every executor type (operator transfers with 1-4 JSON targets incl. the source itself, the same address in different letter case, duplicate keys, zero/fractional/>18-decimal/negative/huge/malformed amounts, amounts exhausting the balance part-way; miner apply/add-stake/refund/change-account valid and invalid; contract create/call (native type and the wrapped-Ethereum type 188 form, nonce in sequence / too low / too high) of programs that SSTORE, LOG, move value, REVERT, self-destruct, burn all gas; repeated and out-of-order nonces; add-stake to the genesis proposers; 15% proposer-heavy blocks). In 40% of the plans the block under test skips 300..420 height slots so that miners registered by the setup (optionally 3-5 proposers sharing ONE reward account) are counted in the reward step; half of the plans carry a competing block of the same height that moves proposer stakes. In 25% of the plans the setup history replaces the code at a fixed address (CREATE2 child probed by EXTCODESIZE, self-destructed, re-created with longer code) and the block under test probes it again. The block is executed first by the long-running incarnation that executed the whole setup history, then by R=4 (quick) / 8 (thorough) replica incarnations differing in seeded map-iteration order, wall clock (epoch, per-call drift), cold boot from the parent's disk image vs warm node with seeded first-touch reads or an executed-and-discarded block vs a fresh incarnation whose only history is the competing block of the same height; state root, evicted list, executed list and every receipt (status, result text, logs, gas, contract address) must be byte-identical. Then a proposer incarnation casts the block through the pool - in 30% of the plans with a clock that advances 40..1500 ms at every reading, so that its casting time budget runs out at some transaction - and a differently seeded incarnation must accept the block. distinct_nontrivial = distinct (tx-kind multiset, outcome vector) pairs of blocks with >=2 transactions or a multi-target transfer.",
 		Assumptions: []string{"replicas are sequential incarnations in one process (singletons): process-local caches are reset the way a fresh process starts", "fork configuration fixed per plan (latestsync or devlike)"},
 		Real:        []string{"core/vmexecutor + all executors", "service (ChangeAssets, miner/refund/reward managers, tx pool)", "storage/account + trie", "vm (EVM)", "core cast/verify/add path"},
 		Stub:        []string{"ConsensusHelper", "network", "NTP clock (simulated)"},
-		FaultKinds:  []string{"map_order_seed", "clock_epoch_shift", "clock_drift_per_call", "cold_boot_replica", "warm_touch_order", "warm_discarded_block", "warm_competing_block_same_height", "concurrent_executions_in_one_process", "long_running_node_replica", "code_replaced_at_fixed_address_in_history"},
+		FaultKinds:  []string{"map_order_seed", "clock_epoch_shift", "clock_drift_per_call", "cold_boot_replica", "warm_touch_order", "warm_discarded_block", "warm_competing_block_same_height", "concurrent_executions_in_one_process", "long_running_node_replica", "code_replaced_at_fixed_address_in_history", "proposer_clock_runs_during_cast"},
 	}
 }
 
@@ -121,6 +122,7 @@ func c01GenTx(r *simrt.Rand, i int, nonces map[int]uint64) node.TxSpec {
 		s.MType = byte(r.Intn(2))
 		s.Stake = []uint64{100, 400, 500, 2000, 2500}[r.Intn(5)]
 		s.Acct = r.Intn(5) // 0 = the source
+		s.NoPK = r.Chance(0.12)
 	case x < 62:
 		s.K = "addstake"
 		s.Miner = r.Intn(4)
@@ -232,6 +234,20 @@ func (c01) Gen(seed uint64, tier string) json.RawMessage {
 			an[s.From]++
 			p.Alt = append(p.Alt, s)
 		}
+		// a miner that applies without a public key in the block under test applies WITH one in the competing
+		// block: whatever the node keeps locally about keys it has seen must not decide the outcome
+		for _, t := range p.Txs {
+			if t.K == "apply" && t.NoPK {
+				s := node.TxSpec{K: "apply", From: r.Intn(4), Miner: t.Miner, MType: t.MType, Stake: 2000 + uint64(100*r.Intn(10)), Salt: "alt-pk"}
+				s.Nonce = an[s.From]
+				an[s.From]++
+				p.Alt = append(p.Alt, s)
+				break
+			}
+		}
+	}
+	if r.Chance(0.3) {
+		p.CastStep = int64(r.Range(40, 1500))
 	}
 	R := 4
 	if tier == "thorough" {
@@ -712,7 +728,21 @@ func (c01) Exec(raw json.RawMessage, st *simrt.Stats, log *simrt.Log) *simrt.Vio
 		c := *t
 		cp = append(cp, &c)
 	}
+	if p.CastStep > 0 {
+		// a slow proposer: its clock moves at every reading, so the casting time budget can run out at any
+		// transaction; whatever it then proposes must still be a block the others accept
+		base, calls := node.EpochTime.Add(time.Duration(p.TimeMs)*time.Millisecond), int64(0)
+		utility.SimClock = func() time.Time {
+			calls++
+			return base.Add(time.Duration(calls*p.CastStep) * time.Millisecond).In(utility.SimZone())
+		}
+		st.Fault("proposer_clock_runs_during_cast")
+	}
 	blk, err := c01Cast(prop, node.BlockSpec{QN: p.QN, PV: p.PV, Castor: p.Castor, TimeMs: p.TimeMs, Skip: p.Jump, Txs: cp}, p.Seed)
+	utility.SimClock = nil
+	if err == nil && len(blk.Transactions) < len(cp) {
+		st.Probe("cast_block_shorter_than_pool")
+	}
 	if err != nil {
 		return simrt.Violationf("C01", "proposer-cannot-cast", "cast", len(p.Replicas), "%v", err)
 	}
